@@ -464,11 +464,13 @@ def _build_eval_tree(
                     )
                 elif prev_op == "(":
                     # close parenthetical group
-                    assert result is not None
+                    if result is None:
+                        raise DefinitionSyntaxError("missing operand")
                     return result, index
                 else:
                     # parenthetical group ending, but we need to close sub-operations within group
-                    assert result is not None
+                    if result is None:
+                        raise DefinitionSyntaxError("missing operand")
                     return result, index - 1
             elif token_text == "(":
                 if result:
@@ -550,11 +552,13 @@ def _build_eval_tree(
                 raise DefinitionSyntaxError("unclosed parentheses in tokens")
             if depth > 0 or prev_op:
                 # have to close recursion
-                assert result is not None
+                if result is None:
+                    raise DefinitionSyntaxError("missing operand")
                 return result, index
             else:
                 # recursion all closed, so just return the final result
-                assert result is not None
+                if result is None:
+                    raise DefinitionSyntaxError("missing operand")
                 return result, -1
 
         if index + 1 >= len(tokens):
